@@ -166,6 +166,42 @@ Section Laws.
         now rewrite <- ?app_assoc, ?app_nil_r.
   Qed.
 
+  (* whatever the endpoint looked like before (origin set or not): the name comes from the
+     configuration or else from the endpoint URI's host *)
+  Theorem tls_config_wiring_gen : forall f (e0 : @Endpoint cert ca dname) c e,
+    endpoint_tls_config valid_name native_certs webpki_roots f e0 c = inr e ->
+    e_scheme e = e_scheme e0 /\ e_host e = e_host e0 /\ e_origin e = e_origin e0 /\
+    exists t d, e_tls e = Some t /\
+      effective_domain c (e_host e0) = Some d /\ valid_name d = true /\ tc_domain t = d /\
+      tc_roots t = configured_roots native_certs webpki_roots f c /\
+      tc_identity t = c_identity c /\ tc_assume_http2 t = c_assume_http2 c /\
+      tc_alpn t = [ALPN_H2].
+  Proof.
+    intros f e0 c e H. unfold endpoint_tls_config, into_tls_connector in H.
+    fold (effective_domain c (e_host e0)) in H.
+    destruct (effective_domain c (e_host e0)) as [d|] eqn:D; [|discriminate].
+    destruct (tls_connector_new _ _ _ _ _ _ _ _ _ _ _) as [err|t] eqn:T; [discriminate|].
+    injection H as <-. simpl. repeat split.
+    destruct (tls_connector_new_spec _ _ _ _ _ _ _ _ _ T) as (Hr & Hi & Ha & Hd & Hh & Hv).
+    exists t, d. repeat split; auto.
+  Qed.
+
+  (* Endpoint::origin changes neither the URI nor the connector *)
+  Lemma apply_origin_keeps : forall o (e : @Endpoint cert ca dname),
+    e_scheme (apply_origin o e) = e_scheme e /\ e_host (apply_origin o e) = e_host e /\
+    e_tls (apply_origin o e) = e_tls e.
+  Proof. intros [x|] e; repeat split. Qed.
+
+  Lemma origin_irrelevant_connect : forall f o e srv,
+    connect_outcome rc f (apply_origin o e) srv = connect_outcome rc f e srv.
+  Proof. intros f [x|] e srv; reflexivity. Qed.
+  Lemma origin_irrelevant_handler : forall f o e srv,
+    request_reaches_handler rc ra f (apply_origin o e) srv = request_reaches_handler rc ra f e srv.
+  Proof. intros f [x|] e srv; reflexivity. Qed.
+  Lemma origin_irrelevant_peer_certs : forall f o e srv,
+    peer_certs_exposed rc ra f (apply_origin o e) srv = peer_certs_exposed rc ra f e srv.
+  Proof. intros f [x|] e srv; reflexivity. Qed.
+
   Theorem tls_config_wiring : forall f s h (c : @ClientTlsConfig cert ca dname) e,
     endpoint_tls_config valid_name native_certs webpki_roots f (endpoint_from_uri s h) c = inr e ->
     e_scheme e = s /\
@@ -403,6 +439,49 @@ Section Laws.
   Proof. reflexivity. Qed.
 
   (* ---------------------------------------------------------------- end to end, from the two configurations *)
+  Theorem served_over_https_implies_all_o : forall f o_before o_after h
+      (c : @ClientTlsConfig cert ca dname) e0 srv,
+    f_tls f = true ->
+    endpoint_tls_config valid_name native_certs webpki_roots f
+      (apply_origin o_before (endpoint_from_uri Https h)) c = inr e0 ->
+    let e := apply_origin o_after e0 in
+    request_reaches_handler rc ra f e srv = true ->
+    exists a d alpn,
+      srv = STls a /\ effective_domain c h = Some d /\
+      chain_ok (configured_roots native_certs webpki_roots f c) (a_cert a) = true /\
+      name_ok d (a_cert a) = true /\
+      connect_outcome rc f e srv = ConnTls alpn /\
+      (alpn = Some ALPN_H2 \/ c_assume_http2 c = true) /\
+      match a_verifier a with
+      | NoClientAuth => peer_certs_exposed rc ra f e srv = None
+      | WebPki root allow =>
+          (exists ci, c_identity c = Some ci /\ client_cert_ok root ci = true /\
+                      peer_certs_exposed rc ra f e srv = Some ci) \/
+          (allow = true /\ c_identity c = None /\ peer_certs_exposed rc ra f e srv = None)
+      end.
+  Proof.
+    intros f ob oa h c e0 srv Hf Hcfg e H.
+    destruct (tls_config_wiring_gen _ _ _ _ Hcfg)
+      as (Hs & Hh0 & _ & t & d & Ht & Hd & _ & Hdom & Hr & Hi & Has & _).
+    destruct (apply_origin_keeps ob (endpoint_from_uri Https h)) as (Ks & Kh & _).
+    rewrite Kh in Hd. simpl in Hd. rewrite Ks in Hs. simpl in Hs.
+    destruct (apply_origin_keeps oa e0) as (Ls & _ & Lt). fold e in Ls, Lt.
+    rewrite Ht in Lt. rename Lt into Ht'. clear Ht. rename Ht' into Ht.
+    assert (Hhttps : is_https (e_scheme e) = true) by now rewrite Ls, Hs.
+    destruct (call_sent_implies_authenticated f e srv Hf Hhttps (reaches_implies_transmitted _ _ _ H))
+      as (t' & a & alpn & Ht' & -> & Hc & Hch & Hn & Hh).
+    rewrite Ht in Ht'. injection Ht' as <-.
+    assert (Hid : endpoint_identity e = c_identity c).
+    { unfold endpoint_identity. now rewrite Ht. }
+    subst d. rewrite Hr in Hch. rewrite Has in Hh.
+    exists a, (tc_domain t), alpn.
+    split; [reflexivity|]. split; [exact Hd|]. split; [exact Hch|]. split; [exact Hn|].
+    split; [exact Hc|]. split; [exact Hh|].
+    destruct (a_verifier a) as [|root allow] eqn:Hv.
+    - now apply no_verifier_no_peer_certs.
+    - rewrite <- Hid. now apply verifier_enforced.
+  Qed.
+
   Theorem served_over_https_implies_all : forall f h (c : @ClientTlsConfig cert ca dname) e srv,
     f_tls f = true ->
     endpoint_tls_config valid_name native_certs webpki_roots f (endpoint_from_uri Https h) c = inr e ->
@@ -422,20 +501,7 @@ Section Laws.
       end.
   Proof.
     intros f h c e srv Hf Hcfg H.
-    destruct (tls_config_wiring _ _ _ _ _ Hcfg) as (Hs & t & d & Ht & Hd & _ & Hdom & Hr & Hi & Has & _).
-    assert (Hhttps : is_https (e_scheme e) = true) by now rewrite Hs.
-    destruct (call_sent_implies_authenticated f e srv Hf Hhttps (reaches_implies_transmitted _ _ _ H))
-      as (t' & a & alpn & Ht' & -> & Hc & Hch & Hn & Hh).
-    rewrite Ht in Ht'. injection Ht' as <-.
-    assert (Hid : endpoint_identity e = c_identity c).
-    { unfold endpoint_identity. now rewrite Ht. }
-    subst d. rewrite Hr in Hch. rewrite Has in Hh.
-    exists a, (tc_domain t), alpn.
-    split; [reflexivity|]. split; [exact Hd|]. split; [exact Hch|]. split; [exact Hn|].
-    split; [exact Hc|]. split; [exact Hh|].
-    destruct (a_verifier a) as [|root allow] eqn:Hv.
-    - now apply no_verifier_no_peer_certs.
-    - rewrite <- Hid. now apply verifier_enforced.
+    exact (served_over_https_implies_all_o f None None h c e srv Hf Hcfg H).
   Qed.
 End Laws.
 
